@@ -139,6 +139,7 @@ type (
 		rd         atomic.Value // read deadline
 		wd         atomic.Value // write deadline
 		headerSize int          // the header size additional to a KCP frame
+		wireMtu    atomic.Int32 // the accepted MTU on the wire (headers included)
 		ackNoDelay bool         // send ack immediately for each incoming packet(testing purpose)
 		writeDelay bool         // delay kcp.flush() for Write() for bulk transfer
 		dup        int          // duplicate udp packets(testing purpose)
@@ -553,6 +554,7 @@ func (s *UDPSession) SetWindowSize(sndwnd, rcvwnd int) {
 // SetMtu sets the maximum transmission unit(not including UDP header)
 func (s *UDPSession) SetMtu(mtu int) bool {
 	mtu = min(mtuLimit, mtu)
+	wire := mtu
 
 	mtu -= s.headerSize
 	if aead, ok := s.block.(*aeadCrypt); ok {
@@ -562,6 +564,9 @@ func (s *UDPSession) SetMtu(mtu int) bool {
 	s.mu.Lock()
 	defer s.mu.Unlock()
 	ret := s.kcp.SetMtu(mtu) // kcp mtu is not including udp header
+	if ret == 0 {
+		s.wireMtu.Store(int32(wire))
+	}
 	return ret == 0
 }
 
@@ -715,6 +720,16 @@ func (s *UDPSession) postProcess() {
 			if s.fecEncoder != nil {
 				if !oob {
 					ecc = s.fecEncoder.encode(buf, maxFECEncodeLatency)
+					// parity is as long as the longest data packet of its group; if the MTU was
+					// lowered while the group was open, it no longer fits: do not send it
+					if lim := int(s.wireMtu.Load()); lim > 0 && len(ecc) > 0 {
+						if aead, ok := s.block.(*aeadCrypt); ok {
+							lim -= aead.Overhead()
+						}
+						if len(ecc[0]) > lim {
+							ecc = nil
+						}
+					}
 				} else {
 					s.fecEncoder.encodeOOB(buf)
 				}
